@@ -333,8 +333,20 @@ func (p *Pending) Returned() bool {
 	}
 }
 
+// GoPre is Go with a context that is already cancelled when the call is issued.
+func (r *Rig) GoPre(c *RigClient, kind, tok string, plan Plan) *Pending {
+	return r.goCall(c, kind, tok, plan, true)
+}
+
 func (r *Rig) Go(c *RigClient, kind, tok string, plan Plan) *Pending {
+	return r.goCall(c, kind, tok, plan, false)
+}
+
+func (r *Rig) goCall(c *RigClient, kind, tok string, plan Plan, preCancelled bool) *Pending {
 	ctx, cancel := context.WithCancel(context.Background())
+	if preCancelled {
+		cancel()
+	}
 	p := &Pending{Kind: kind, Tok: tok, Plan: plan, Done: make(chan struct{}), Cancel: cancel, Issued: time.Now(), overHTTP: c.HTTP}
 	go func() {
 		defer close(p.Done)
